@@ -12,7 +12,7 @@ Definition summ (src : srcp) (c : cfg) (sched : list step) : gs := gs_outs gs0 (
 
 Definition plain_cfg : cfg :=
   {| c_oneway := false; c_data := false; c_trailers := false; c_route := RouteForward; c_nhosts := 2%nat; c_retry_on := false;
-     c_num_retries := 0%nat; c_codes := []; c_try_timeout := false; c_max_retries := 0; c_recv := []; c_send := []; c_pool := []; c_delay := []; c_snd_err_hdr := false; c_snd_err_data := false; c_snd_err_trl := false; c_http := false; c_nohost_from := None |}.
+     c_num_retries := 0%nat; c_codes := []; c_try_timeout := false; c_max_retries := 0; c_recv := []; c_send := []; c_pool := []; c_delay := []; c_snd_err_hdr := false; c_snd_err_data := false; c_snd_err_trl := false; c_http := false; c_nohost_from := None; c_late_reset := false |}.
 
 (* the worker runs whenever it can, every sleep ends: 120 rounds of [Worker; Worker; Worker; wake] *)
 Definition drive : list step := concat (repeat [Worker; Worker; Worker; Env EvWake] 120).
@@ -287,3 +287,27 @@ Proof.
   intros H. specialize (H plain_cfg (final src_tree plain_cfg (repeat Worker 12))).
   apply (f_equal (fun p => received (fst p))) in H. vm_compute in H. discriminate H.
 Qed.
+
+Definition no_defect_flags (s : st) : bool := negb (x_loop s) && negb (x_upf s) && negb (x_nog s).
+
+(* ---------- an upstream reset after the response to the client has started ---------- *)
+(* downStream.resetStream() sets upstreamProcessDone and THEN resets the client stream, relying on the synchronous OnResetStream
+   callback (downstreamReset -> processError -> ResetStream -> cleanStream).  With OnResetStream itself returning when
+   upstreamProcessDone is set (switch set): the headers of a response with a body are written, the upstream stream is reset before
+   the body phase, the client stream is reset - and the request never reaches a terminal outcome: not cleaned, gauge up, no log, no
+   filter destroy *)
+Definition src_reset_checks_done : srcp := src_tree <| on_reset_checks_done := true |>.
+Definition cfg_late_reset : cfg := plain_cfg <| c_late_reset := true |>.
+Definition sched_reset_mid_response : list step :=
+  repeat Worker 12 ++ [Env (EvUpResp 0 200 true false)] ++ repeat Worker 3 ++ [Env (EvUpReset 0 RsTermination)] ++ drive.
+Lemma witness_reset_mid_response :
+  trace src_reset_checks_done cfg_late_reset sched_reset_mid_response =
+    [OChoose; OUpNew 0 PoolOk; OUpHdr 0 true 1; ODownHdr false KUp 200; ODownReset] /\
+  cleaned (final src_reset_checks_done cfg_late_reset sched_reset_mid_response) = false /\
+  quiescent (final src_reset_checks_done cfg_late_reset sched_reset_mid_response) = true /\
+  no_defect_flags (final src_reset_checks_done cfg_late_reset sched_reset_mid_response) = true /\
+  (* the tree: the client stream is reset and the stream is cleaned once *)
+  trace src_tree cfg_late_reset sched_reset_mid_response =
+    [OChoose; OUpNew 0 PoolOk; OUpHdr 0 true 1; ODownHdr false KUp 200; ODownReset; OGauge (-1); OLog; ODestroy] /\
+  cleaned (final src_tree cfg_late_reset sched_reset_mid_response) = true.
+Proof. vm_compute. repeat split; reflexivity. Qed.
